@@ -12,7 +12,7 @@ EXPLANATION = (
     "of true; (R4) CYCLE-COVER - the production call graph (calls, closures, reified and promoted fn pointers) becomes "
     "acyclic once the memoising wrappers are removed, i.e. every recursion of the grammar passes a memo point. Tree "
     "equality with/without cache and the linear bound itself are measured quantities and are not decided.")
-EXPLANATION += ' Further clause: (R6) MEMO-MONOTONE - Context.cache is written by one insert site and never cleared, evicted or re-assigned, and storing/hitting are conditional on the bypass switch only. (R7) HIT-CONSTANT / RESULT-SHARED - lookup() does no token work on a hit; a memoising wrapper returns the memoised result untouched. (R8) ARENA-MONOTONE - the syntax arena only grows while parsing.'
+EXPLANATION += ' Further clause: (R6) MEMO-MONOTONE - Context.cache is written by one insert site and never cleared, evicted or re-assigned, and storing/hitting are conditional on the bypass switch only. (R7) HIT-CONSTANT / RESULT-SHARED - lookup() does no token work on a hit; a memoising wrapper returns the memoised result untouched. (R8) ARENA-MONOTONE - the syntax arena only grows while parsing. (R9) CONTEXT-STATE - the parsing context has no mutable state besides the tree, the memo table and its statistics; the table uses the standard hasher.'
 TECHNIQUE = "static analysis: call-graph SCC rule + MIR parameter provenance + HIR constant census"
 
 
@@ -449,7 +449,45 @@ def r8_arena_monotone(c, facts):
         c.ok(R, {'arena': 'only new_node / append mutate it', 'uses': n})
 
 
+def r9_context_state(c, facts):
+    """the result of a production is a function of (cursor, tag): the parsing context carries no other mutable state that
+    a production could read - only the tree (grows), the memo table, and two statistics cells.  A nesting counter that is
+    not restored on failure makes the cached and the uncached parse disagree."""
+    R = c.rule('C12.R9', 'CONTEXT-STATE: the parsing context has no mutable state besides the tree, the memo table and its statistics; the table uses the standard hasher')
+    adt = facts.adt('oal_model::grammar::Context')
+    if not adt:
+        c.bad(R, 'anchor-missing:grammar::Context', 'struct oal_model::grammar::Context not found')
+        return
+    fields = {f: ty for f, ty in adt['variants'][0]['fields']}
+    c.floor(R, 'fields of grammar::Context', len(fields), 3)
+    STATE_OK = {'tree', 'cache', 'hits', 'reads', 'no_cache'}
+    extra = sorted(set(fields) - STATE_OK)
+    written = {}
+    for fn in sorted(facts.fns.values(), key=lambda f: f.qname):
+        if not fn.mir or fn.crate not in ('oal_model', 'oal_syntax'):
+            continue
+        for b, blk in fn.blocks():
+            for st in blk['stmts']:
+                if st['s'] == 'assign' and st['place']['proj']:
+                    for pr in st['place']['proj']:
+                        if pr['p'] == 'field' and (pr.get('owner') or '').endswith('grammar::Context') and pr['name'] not in ('tree', 'cache'):
+                            written.setdefault(pr['name'], set()).add(facts.home(fn).qname.split('::')[-1])
+    stateful = sorted(f for f in extra if f in written or any(k in fields[f] for k in ('Cell<', 'RefCell<', 'Atomic')))
+    if stateful:
+        c.bad(R, 'context-carries-state:%s' % ','.join(stateful), 'grammar::Context has further mutable state (%s, written by %s): what a production returns can depend on what was parsed before, so a memoised result and a recomputed one can differ' % (stateful, {f: sorted(written.get(f, ())) for f in stateful}))
+    else:
+        c.ok(R, {'fields': sorted(fields), 'written_outside_table_and_tree': {k: sorted(v) for k, v in written.items()}})
+    cty = fields.get('cache', '')
+    if 'HashMap<' in cty and ('BuildHasher' in cty or cty.count(',') > 3 and 'RandomState' not in cty and 'BuildHasher' in cty):
+        c.bad(R, 'memo-table-hasher-custom', 'the memo table hashes its keys with a custom hasher (%s): lookups are expected constant time only with a hasher that spreads (cursor, tag) keys' % cty[:160])
+    elif 'HashMap<' in cty or 'BTreeMap<' in cty or 'IndexMap<' in cty:
+        c.ok(R, {'memo table': cty[:120]})
+    else:
+        c.bad(R, 'memo-table-type', 'Context.cache is no longer a map: %s' % cty[:120])
+
+
 def run(c, facts):
+    c.run(r9_context_state, facts)
     c.run(r8_arena_monotone, facts)
     c.run(r7_hit_constant_and_shared, facts)
     c.run(r6_memo_monotone, facts)
